@@ -512,7 +512,13 @@ Definition returning (qs : str) p :=
 Definition main_with (sq wa : bool) p : res (str * pz) :=
     match cls with
     | BPostgreSQL =>
-        do (qs, p1) <- (if has_upd then pg_sqlite_update p else generic_with sq wa p); returning qs p1
+        (* RETURNING is part of the statement: with it, the statement is rendered un-wrapped, RETURNING is appended and the parentheses and
+           the alias of the embedding position go around the whole *)
+        let ret := is_nonempty_terms returns in
+        do (qs, p1) <- (if has_upd then pg_sqlite_update p
+                        else generic_with (if ret then false else sq) (if ret then false else wa) p);
+        do (qs2, p2) <- returning qs p1;
+        Ok ((if ret then alias_if wa c (paren_if sq qs2) alias else qs2), p2)
     | BSQLite => if has_upd then pg_sqlite_update p else generic_with sq wa p
     | BMySQL =>
         do (qs, p1) <- generic_with sq wa p;
